@@ -89,6 +89,26 @@ pub fn norm_tmp_text(s: &str) -> String {
     out
 }
 
+/// The panic message of the Rust runtime names the thread by its kernel id
+/// (`thread 'main' (12345) panicked`): a number the simulation does not decide.
+pub fn norm_thread_ids(s: &str) -> String {
+    let mut out = String::with_capacity(s.len());
+    let mut rest = s;
+    while let Some(k) = rest.find("' (") {
+        let (head, tail) = rest.split_at(k + 3);
+        out.push_str(head);
+        let digits = tail.bytes().take_while(|b| b.is_ascii_digit()).count();
+        if digits > 0 && tail[digits..].starts_with(") ") && head.contains("thread '") {
+            out.push_str("TID");
+        } else {
+            out.push_str(&tail[..digits]);
+        }
+        rest = &tail[digits..];
+    }
+    out.push_str(rest);
+    out
+}
+
 pub fn is_tmp_name(c: &str) -> bool {
     c.len() == 9 && c.starts_with("jaq") && c[3..].bytes().all(|b| b.is_ascii_alphanumeric())
 }
@@ -141,12 +161,15 @@ impl History {
                 continue;
             }
             h.write(o.sig().as_bytes());
-            h.write(&o.ret.min(1 << 40).to_le_bytes());
+            // (how many bytes one write of a diagnostic carried depends on the width of the thread
+            // id in it: the text itself is hashed below, normalised)
+            let ret = if o.class == Class::Write && o.obj.as_deref() == Some("stderr") { o.ret.signum() } else { o.ret.min(1 << 40) };
+            h.write(&ret.to_le_bytes());
             h.write(o.injected.as_deref().unwrap_or("").as_bytes());
         }
         h.write(format!("{:?}", self.exit).as_bytes());
         h.write(&self.stdout.0);
-        h.write(norm_tmp_text(&String::from_utf8_lossy(&self.stderr.0)).as_bytes());
+        h.write(norm_thread_ids(&norm_tmp_text(&String::from_utf8_lossy(&self.stderr.0))).as_bytes());
         for (p, f) in &self.files_after {
             h.write(norm_tmp(p).as_bytes());
             h.write(&f.bytes.0);
